@@ -76,6 +76,15 @@ Tie (measured on the unchanged tree, quick tier, seed 0: 301 scenarios x 3 runs,
   Nondeterministic IR operations (iteration over a frozenset of nodes in Graph.remove when it fails
   half way: C01/C06's business) are recognised by re-running: a plain/journaled difference counts as
   interference only if 6 plain and 6 journaled runs have disjoint behaviours.
+Round 2 (seeded changes): the weak-reference clause now LOOKS at the entries while the objects are alive
+  (scenario item {"look": true}: a hook registered with add_hook reading entry.obj/ref/details, iteration and
+  filtering over journal.entries reading .obj, Journal.display, JournalEntry.display), then drops everything,
+  gc.collect(), and requires entry.ref() is None AND entry.obj is None (catches a cached entry.obj: C20-r2m3).
+  The alphabet has setter calls whose new value EQUALS the current one: the same object, an equal-but-distinct
+  Shape (kept in a pool and later edited in place by `shape_edit`), a TensorType differing only in denotation
+  (denotation and identity of the held Shape are in the snapshot), a list equal to the shape (must raise
+  TypeError), same name/op_type/domain/version/overload; setters are in the oracle's one-entry-per-completed-
+  operation table (catches a setter wrapper that skips "no-op" assignments with a concrete replay: C20-r2m1).
 Modelled, not verified: purity of details_func/repr/getattr inside wrappers (exercised by (i) — and
   this is exactly where the finding below was), weakref/traceback/time, determinism of the originals,
   hooks (user callbacks), threads.
@@ -518,7 +527,7 @@ def generate(ck) -> dict | None:
 # empty -> the op is skipped deterministically).  The exception of an op is caught and recorded as its
 # result unless "prop" is set, in which case it propagates out of the enclosing blocks.
 
-POOLS = ("value", "node", "graph", "tensor", "attr", "func", "model")
+POOLS = ("value", "node", "graph", "tensor", "attr", "func", "model", "shape")
 _THROWABLE = {"ValueError": ValueError, "RuntimeError": RuntimeError, "KeyError": KeyError, "TypeError": TypeError}
 
 
@@ -733,7 +742,9 @@ class World:
         out = []
         for h, (kind, o) in enumerate(self.all, 1):
             if kind == "value":
-                out.append([h, "value", safe(lambda: o.name), safe(lambda: repr(o.type)), safe(lambda: repr(o.shape)),
+                out.append([h, "value", safe(lambda: o.name), safe(lambda: repr(o.type)),
+                            safe(lambda: getattr(o.type, "denotation", None)), safe(lambda: type(o.shape).__name__),
+                            safe(lambda: repr(o.shape)), safe(lambda: L(o.shape)),
                             safe(lambda: L(o.const_value)), safe(lambda: L(o.producer())), safe(lambda: o.index()),
                             safe(lambda: sorted((L(u.node), u.idx) for u in o.uses())),
                             safe(lambda: o.is_graph_input()), safe(lambda: o.is_graph_output()),
@@ -754,6 +765,8 @@ class World:
             elif kind == "func":
                 out.append([h, "func", safe(lambda: o.name), safe(lambda: o.domain), safe(lambda: o.overload),
                             safe(lambda: [L(n) for n in o]), safe(lambda: [(k, L(a)) for k, a in o.attributes.items()])])
+            elif kind == "shape":
+                out.append([h, "shape", safe(lambda: repr(o))])
             elif kind == "model":
                 out.append([h, "model", safe(lambda: L(o.graph)), safe(lambda: o.ir_version)])
         return out
@@ -770,6 +783,8 @@ ORACLE_OPS = {
     "io_remove": ("remove_io", "graph"), "io_clear": ("clear_io", "graph"), "io_extend": ("extend_io", "graph"),
     "io_setitem": ("set_io", "graph"), "init_set": ("set_initializer", "graph"),
     "init_del": ("delete_initializer", "graph"), "attr_set": ("set_attribute", "node"),
+    "v_set_type": ("set_type", "value"), "v_set_shape": ("set_shape", "value"),
+    "v_set_const": ("set_const_value", "value"),
     "value": ("init", "result"), "node": ("init", "result"), "graph": ("init", "result"),
     "tensor": ("init", "result"), "attr": ("init", "result"), "func": ("init", "result"),
     "model": ("init", "result"),
@@ -899,13 +914,13 @@ def do_op(W: World, it: dict):
         o = W.sel(it["kind"], it["i"])
         if o is None:
             return None, "skip"
-        o.name = it["name"]
+        o.name = o.name if it.get("same") else it["name"]
         return o, None
     if op == "n_set":
         n = N(it["n"])
         if n is None:
             return None, "skip"
-        setattr(n, it["field"], it["val"])
+        setattr(n, it["field"], getattr(n, it["field"]) if it.get("same") else it["val"])
         return n, None
     if op == "f_set":
         f = W.sel("func", it["f"])
@@ -917,14 +932,42 @@ def do_op(W: World, it: dict):
         v = V(it["v"])
         if v is None:
             return None, "skip"
-        v.type = None if it.get("none") else ir.TensorType(ir.DataType(it.get("dt", 1)))
+        mode = it.get("mode")
+        if mode == "same":
+            v.type = v.type
+        elif mode in ("denot", "equal"):
+            # a type that compares EQUAL to the current one (TensorType.__eq__ looks at dtype only)
+            dt = v.type.dtype if v.type is not None else ir.DataType.FLOAT
+            v.type = ir.TensorType(dt, denotation="IMAGE" if mode == "denot" else None)
+        else:
+            v.type = None if it.get("none") else ir.TensorType(ir.DataType(it.get("dt", 1)))
         return v, None
     if op == "v_set_shape":
         v = V(it["v"])
         if v is None:
             return None, "skip"
-        v.shape = None if it.get("none") else ir.Shape(it.get("dims", [1, "N"]))
+        mode = it.get("mode")
+        if mode == "same":
+            v.shape = v.shape
+        elif mode == "list":
+            v.shape = list(v.shape) if v.shape is not None else [1, 2]     # equals the shape; must raise TypeError
+        elif mode == "equal":
+            s2 = ir.Shape(list(v.shape)) if v.shape is not None else ir.Shape([1, 2])   # equal, distinct object
+            W.add("shape", s2)
+            v.shape = s2
+        elif it.get("none"):
+            v.shape = None
+        else:
+            s2 = ir.Shape(it.get("dims", [1, "N"]))
+            W.add("shape", s2)
+            v.shape = s2
         return v, None
+    if op == "shape_edit":
+        sh = W.sel("shape", it["s"])
+        if sh is None or len(sh) == 0:
+            return None, "skip"
+        sh[it.get("idx", 0) % len(sh)] = it.get("val", 7)          # in-place edit of a (possibly assigned) Shape
+        return None, None
     if op == "v_set_const":
         v = V(it["v"])
         if v is None:
@@ -1046,6 +1089,7 @@ def run_scenario(scn: list, mode: str, x: dict | None = None) -> dict:
     if mode == "traced":
         tracer = Tracer(x)
         tracer.install()
+    look = mode == "journal" and any("look" in it for it in scn)
     active: list[int] = []
     pos_of = {id(it): i for i, it in enumerate(_flat_ops(scn))}     # syntactic position of every op item
 
@@ -1075,8 +1119,9 @@ def run_scenario(scn: list, mode: str, x: dict | None = None) -> dict:
             obs["ops"].append({"forest": tracer.forest(), "out": ("ok", 0) if err is None else ("raise", err[1]),
                                "prop": bool(it.get("prop")), "pos": pos_of[id(it)]})
         # oracle bookkeeping: the completed instrumented top-level operation has exactly one entry per active journal
-        if mode == "journal" and err is None and it["op"] in ORACLE_OPS and res[1] != "skip":
-            opname, who = ORACLE_OPS[it["op"]]
+        dyn = {"set_name": "set_name", "n_set": "set_" + str(it.get("field")), "f_set": "set_" + str(it.get("field"))}
+        if mode == "journal" and err is None and (it["op"] in ORACLE_OPS or it["op"] in dyn) and res[1] != "skip":
+            opname = dyn[it["op"]] if it["op"] in dyn else ORACLE_OPS[it["op"]][0]
             for j, n0 in wins:
                 win = journals[j].entries[n0:]
                 cnt = sum(1 for e in win if e.operation == opname and e.ref is not None and e.ref() is tgt)
@@ -1090,6 +1135,8 @@ def run_scenario(scn: list, mode: str, x: dict | None = None) -> dict:
         for it in items:
             if "op" in it:
                 one_op(it)
+            elif "look" in it:
+                continue
             elif "throw" in it:
                 raise _Escape(it["throw"], it["throw"] if it["throw"] in common._EXN_NAMES else "OtherError")
             elif "try" in it:
@@ -1104,6 +1151,9 @@ def run_scenario(scn: list, mode: str, x: dict | None = None) -> dict:
                 j = it["with"]
                 if j not in journals:
                     journals[j] = Journal()
+                    if look:
+                        # a user hook that looks at the entry (public API) while the object is alive
+                        journals[j].add_hook(lambda e: (e.obj, e.ref, e.operation, e.class_name, e.details))
                 before = class_state()
                 cur_before = jn.get_current_journal()
                 esc = None
@@ -1166,13 +1216,31 @@ def run_scenario(scn: list, mode: str, x: dict | None = None) -> dict:
                          _ref_type_name(e)))
         ent[j] = rows
     obs["entries"] = ent
+    if look:
+        # every public way of looking at the entries WHILE the objects are alive: iteration, .obj, .ref(),
+        # filtering, Journal.display / JournalEntry.display (output discarded)
+        import contextlib
+        import io
+        for jo in journals.values():
+            try:
+                with contextlib.redirect_stdout(io.StringIO()):
+                    _ = [(e.obj, e.ref() if e.ref is not None else None) for e in jo.entries]
+                    _ = [e for e in jo.entries if e.obj is not None and e.class_name in ("Node", "Value", "Graph")]
+                    _ = None
+                    jo.display()
+                    for e in list(jo.entries)[:4]:
+                        e.display()
+            except Exception as e:  # noqa: BLE001
+                obs["look_errors"] = type(e).__name__
+            _ = None
     if mode == "journal":
         # weak references: drop every IR object of the scenario, collect, every entry must be dead
         entries = [e for jo in journals.values() for e in jo.entries]
         del W, tracer
         one_op = block = None     # closures hold W
         gc.collect()
-        alive = [(e.operation, e.class_name) for e in entries if e.ref is not None and e.ref() is not None]
+        alive = [(e.operation, e.class_name) for e in entries
+                 if (e.ref is not None and e.ref() is not None) or e.obj is not None]
         obs["alive"] = alive
         obs["n_entries"] = len(entries)
     return obs
@@ -1275,13 +1343,13 @@ def _gen_op(rng) -> dict:
         ["value", "tensor", "attr", "node", "graph", "model", "func",
          "g_append", "g_extend", "g_remove", "g_insert_after", "g_insert_before", "g_sort",
          "n_replace_input", "v_rauw", "set_name", "n_set", "f_set", "v_set_type", "v_set_shape", "v_set_const",
-         "v_merge_shapes", "io_append", "io_insert", "io_pop", "io_remove", "io_clear", "io_extend", "io_setitem",
+         "v_merge_shapes", "shape_edit", "io_append", "io_insert", "io_pop", "io_remove", "io_clear", "io_extend", "io_setitem",
          "init_set", "init_del", "init_register", "attr_set", "n_resize_in", "n_resize_out", "n_prepend",
          "n_append", "n_set_graph"],
         [8, 3, 4, 10, 6, 2, 3,
          5, 3, 4, 3, 3, 2,
          5, 5, 5, 4, 3, 2, 2, 3,
-         2, 3, 2, 2, 2, 1, 2, 2,
+         2, 3, 3, 2, 2, 2, 1, 2, 2,
          3, 2, 2, 4, 2, 2, 2,
          2, 2])[0]
     it: dict = {"op": kind}
@@ -1319,16 +1387,21 @@ def _gen_op(rng) -> dict:
     elif kind == "v_rauw":
         it.update(v=i(), w=i(), rgo=r() < 0.5, kw=r() < 0.5)
     elif kind == "set_name":
-        it.update(kind=rng.choice(["value", "value", "node"]), i=i(), name=rng.choice(_NAMES))
+        it.update(kind=rng.choice(["value", "value", "node"]), i=i(), name=rng.choice(_NAMES), same=r() < 0.15)
     elif kind == "n_set":
         f = rng.choice(["op_type", "domain", "version", "overload"])
-        it.update(n=i(), field=f, val=rng.choice([1, 7, None]) if f == "version" else rng.choice(["Add", "Neg", "", "ai.x"]))
+        it.update(n=i(), field=f, val=rng.choice([1, 7, None]) if f == "version" else rng.choice(["Add", "Neg", "", "ai.x"]),
+                  same=r() < 0.2)
     elif kind == "f_set":
         it.update(f=i(), field=rng.choice(["name", "domain", "overload"]), val=rng.choice(["f", "q", ""]))
     elif kind == "v_set_type":
-        it.update(v=i(), none=r() < 0.2, dt=rng.choice([1, 6, 7, 10]))
+        it.update(v=i(), none=r() < 0.2, dt=rng.choice([1, 6, 7, 10]),
+                  mode=rng.choice([None, None, "denot", "denot", "equal", "same"]))
     elif kind == "v_set_shape":
-        it.update(v=i(), none=r() < 0.2, dims=rng.choice([[1, "N"], [2, 3], [], [None, 4]]))
+        it.update(v=i(), none=r() < 0.2, dims=rng.choice([[1, "N"], [2, 3], [], [None, 4]]),
+                  mode=rng.choice([None, None, "equal", "equal", "list", "same"]))
+    elif kind == "shape_edit":
+        it.update(s=i(), idx=rng.randrange(3), val=rng.choice([7, 9, "K"]))
     elif kind == "v_set_const":
         it.update(v=i(), none=r() < 0.2, t=i())
     elif kind == "v_merge_shapes":
@@ -1399,6 +1472,8 @@ def gen_scenario(rng, size: int = 24) -> list:
         pre = pre[:rng.randrange(0, len(pre) + 1)]
     body = block(size, 0, [])
     if rng.random() < 0.5:
+        body.append({"look": True})       # hooks + reading entry.obj/display while the objects are alive
+    if rng.random() < 0.5:
         return pre + body
     # whole scenario (including the construction of the graph) inside one journal
     j = state["next"]
@@ -1419,7 +1494,7 @@ def scn_stats(scn) -> dict:
             elif "try" in it:
                 st["tries"] += 1
                 walk(it["try"], d)
-            else:
+            elif "throw" in it:
                 st["throws"] += 1
     walk(scn, 0)
     return st
@@ -1482,7 +1557,7 @@ def coq_prog(scn: list, ops: list) -> str:
                 parts.append(("with", it["with"], blk(it["body"], "Pe")))
             elif "try" in it:
                 parts.append(("try", blk(it["try"], "Pe")))
-            else:
+            elif "throw" in it:
                 parts.append(("throw", it["throw"]))
         term = k
         for p in reversed(parts):
@@ -1750,6 +1825,10 @@ def run(ck) -> None:
             return k
         nfail = sum(walk(o["forest"]) for o in d["ops"])
         ck.hist("scenario_exit", "exception" if c["escaped"] else "normal")
+        if c.get("look_errors"):
+            # Journal.display()/JournalEntry.display() raised (repr of an object whose __init__ failed half way):
+            # a robustness matter of display, outside C20's statement — counted, not reported
+            ck.hist("probes", "display-raised:" + c["look_errors"])
         ck.hist("entries_total", "entries", c.get("n_entries", 0))
         if st["depth"] >= 2 and nfail and (c["escaped"] or st["throws"] or any(o["prop"] and o["out"][0] == "raise" for o in d["ops"])):
             ck.nontriv(scn)
